@@ -193,6 +193,9 @@ func canonAddr(a ssa.Value, d int) string {
 }
 
 func isRangeIdx(v ssa.Value) bool {
+	if p, ok := v.(*ssa.Phi); ok {
+		return classicIndexPhi(p) != nil
+	}
 	x, ok := v.(*ssa.BinOp)
 	if !ok || x.Op != token.ADD {
 		return false
@@ -207,6 +210,53 @@ func isRangeIdx(v ssa.Value) bool {
 		}
 	}
 	return false
+}
+
+// classicIndexPhi recognises the index variable of `for i := 0; i < len(s); i++`:
+// a phi(0, phi+1) whose block ends in `if phi < len(s)`, the increment being the
+// variable's only other definition. Such a loop visits every element of s in
+// order, like `for i := range s`. Returns the len(s) call.
+func classicIndexPhi(p *ssa.Phi) *ssa.Call {
+	if len(p.Edges) != 2 {
+		return nil
+	}
+	zero, inc := false, false
+	for _, e := range p.Edges {
+		if c, ok := e.(*ssa.Const); ok {
+			if k, isK := IntConst(c); isK && k == 0 {
+				zero = true
+			}
+			continue
+		}
+		if bo, ok := e.(*ssa.BinOp); ok && bo.Op == token.ADD && bo.X == ssa.Value(p) {
+			if k, isK := IntConst(bo.Y); isK && k == 1 {
+				inc = true
+			}
+		}
+	}
+	if !zero || !inc {
+		return nil
+	}
+	b := p.Block()
+	if len(b.Instrs) == 0 {
+		return nil
+	}
+	iff, ok := b.Instrs[len(b.Instrs)-1].(*ssa.If)
+	if !ok {
+		return nil
+	}
+	bo, ok := iff.Cond.(*ssa.BinOp)
+	if !ok || bo.Op != token.LSS || bo.X != ssa.Value(p) {
+		return nil
+	}
+	lc, ok := bo.Y.(*ssa.Call)
+	if !ok {
+		return nil
+	}
+	if bi, ok := lc.Common().Value.(*ssa.Builtin); !ok || bi.Name() != "len" {
+		return nil
+	}
+	return lc
 }
 
 // IsRangeIdx exposes isRangeIdx.
